@@ -204,9 +204,10 @@ def run_check(prop, tier, jobs, level_note, assumptions, bounds, seed=None, extr
                 inconclusive.append((job.label, {"status": "native disagreement", "inputs": r["inputs"], "expected_obs": exp, "native": res}))
                 log("  INCONCLUSIVE: native run disagrees with symbolic path: inputs=%s expected=%s native=%s"
                     % (json.dumps(r["inputs"])[:300], json.dumps(exp)[:300], json.dumps(res)[:500]))
-        for r in oks[:2]:
-            samples.append({"job": job.label, "inputs": r["inputs"], "observations": [o[1] for o in r.get("observations", [])][:40],
-                            "path_decisions": r["decisions"][:80]})
+        for r in sorted(oks[:40], key=lambda r: -len(r["decisions"]))[:2]:
+            samples.append({"job": job.label, "paths_in_job": s["paths"], "inputs": r["inputs"],
+                            "observations": [o[1] for o in r.get("observations", [])][:12],
+                            "path_decisions": r["decisions"][:120]})
     # report
     code = 0
     for f, e in known_hits:
@@ -231,7 +232,7 @@ def run_check(prop, tier, jobs, level_note, assumptions, bounds, seed=None, extr
         "states": totals["paths"],
         "transitions": totals["stmts"],
         "traces_validated_against_impl": validated,
-        "samples": samples[:8] or [{"note": "no completed path"}],
+        "samples": sorted(samples, key=lambda x: -x.get("paths_in_job", 0))[:8] or [{"note": "no completed path"}],
         "exhaustive": code == 0,
         "explanation": "states = symbolic paths explored to completion (each stands for all inputs satisfying its path condition); "
                        "transitions = MIR statements/terminators executed symbolically; traces_validated = paths whose z3 model was "
